@@ -615,6 +615,17 @@ def r6_counter_pairing(ctx, rule):
         elif len(body) == 2 and isinstance(body[0], ast.If) and not body[0].orelse and isinstance(body[1], ast.AugAssign) \
                 and U(body[0].test) in ('len(%s) not in %s' % (it, cnt),) and [type(x).__name__ for x in body[0].body] == ['Assign']:
             shape = 'if-not-in'
+        # get-or-create through a local: c = counter.get(len(item)); if c is None: c = Counter(); counter[len(item)] = c; c[item] += 1
+        if shape is None and len(body) == 3 and isinstance(body[0], ast.Assign) and isinstance(body[0].targets[0], ast.Name) \
+                and isinstance(body[1], ast.If) and not body[1].orelse and isinstance(body[2], ast.AugAssign):
+            loc = body[0].targets[0].id
+            key = 'len(%s)' % it
+            created = sorted(U(x) for x in body[1].body)
+            if U(body[0].value) == '%s.get(%s)' % (cnt, key) and U(body[1].test) == '%s is None' % loc \
+                    and created == sorted(['%s = Counter()' % loc, '%s[%s] = %s' % (cnt, key, loc)]) \
+                    and U(body[2].target) == '%s[%s]' % (loc, it) and isinstance(body[2].op, ast.Add) and const(body[2].value) == 1:
+                shape = 'get-or-create'
+                wrong = []
         if wrong or skips:
             ok = False
             ctx.bad(rule, uq, 'length-indexed update: %s' % (wrong or [U(x) for x in skips]),
